@@ -34,6 +34,13 @@ CHECKS = {
         note="States are canonicalised on the full structural snapshot plus which hash caches are warm. The slice re-parenting defect was repaired in /repo.",
         design="4 C10",
     ),
+    "C11": dict(
+        category="model_checking",
+        technique="explicit-state BFS over histories of evaluate/mutate/crossover/repair/in-place edit/equal-hash twins against one long-lived evaluator, differential oracle against a fresh spec",
+        text="Breadth-first search (depth 2 quick / 3 thorough) on four specs (computed repetition, nested and sibling quantifiers, generator with arguments, equality repair): after every transition every live tree is evaluated by the long-lived evaluator and constraint objects (warm caches) and by a brand-new spec + evaluator; fitness, verdict and failing paths must coincide. Drivers force hash coincidences (structurally equal trees that differ in repetition tags or generator sources) and in-place edits below evaluated nodes.",
+        note="Failing parts are compared as paths inside their own root. Two cache-key defects are recorded known findings.",
+        design="4 C11",
+    ),
     "C12": dict(
         category="model_checking",
         technique="explicit-state BFS over request histories on one spec object, differential oracle against a freshly built spec",
